@@ -54,6 +54,25 @@ fn run_n<const N: usize>(op: &str, a: &[String]) -> String {
             let (q, r) = limbs::<N>(a).rem_div(&limbs::<N>(&a[N..]));
             format!("{} | {}", show(&q), show(&r))
         }
+        // the very same object on both sides of the by-reference operations
+        "remdiv_same" => {
+            let x = limbs::<N>(a);
+            let (q, r) = x.rem_div(&x);
+            format!("{} | {}", show(&q), show(&r))
+        }
+        "cmp_same" => {
+            let x = limbs::<N>(a);
+            format!(
+                "OK {} {} {} {} {} {} {}",
+                ord(x.cmp(&x)),
+                ord(x.partial_cmp(&x).unwrap()),
+                (x < x) as u8,
+                (x <= x) as u8,
+                (x > x) as u8,
+                (x >= x) as u8,
+                (x == x) as u8
+            )
+        }
         "cmp" => {
             let (x, y) = (limbs::<N>(a), limbs::<N>(&a[N..]));
             format!(
